@@ -166,7 +166,8 @@ def build(args):
 def run(ctx):
     rng = ctx.rng("c07")
     combos = []
-    fmts = [("fb", ""), ("fb", "GZIP"), ("npz", ""), ("tfrec", ""), ("tfrec", "GZIP")] if ctx.thorough else [("fb", ""), ("npz", ""), ("tfrec", "GZIP")]
+    fmts = ([("fb", ""), ("fb", "GZIP"), ("fb", "LZ4"), ("fb", "BZ2"), ("fb", "LZMA"), ("fb", "ZSTD"), ("fb", "ZLIB"), ("npz", ""), ("npz", "ZIP"), ("tfrec", ""), ("tfrec", "GZIP"), ("tfrec", "ZLIB")]
+            if ctx.thorough else [("fb", ["", "LZ4", "ZSTD", "BZ2", "GZIP", "LZMA", "ZLIB"][ctx.seed % 7]), ("fb", "LZ4" if ctx.seed % 7 != 1 else "GZIP"), ("npz", ""), ("tfrec", "GZIP")])
     results, skipped, distinct = [], 0, set()
     for fi, (fmt, comp) in enumerate(fmts):
         nshards = 5
